@@ -100,12 +100,14 @@ void register_custom_subjects() {
     aws_register_log_subject_info_list(&g_custom_list);
 }
 
+static const char *kDateFmt[] = {"%a, %d %b %Y %H:%M:%S GMT", "%Y-%m-%dT%H:%M:%SZ", "%Y%m%dT%H%M%SZ"}; // RFC 822, ISO 8601, ISO 8601 basic
+static int g_date_format = 1; // the formatter's date format of the current run (enum aws_date_format value)
 std::string iso8601(uint64_t real_ns) {
     time_t s = (time_t)(real_ns / 1000000000ull);
     struct tm tmv;
     gmtime_r(&s, &tmv);
-    char b[32];
-    strftime(b, sizeof b, "%Y-%m-%dT%H:%M:%SZ", &tmv);
+    char b[64];
+    strftime(b, sizeof b, kDateFmt[g_date_format], &tmv);
     return b;
 }
 
@@ -146,17 +148,18 @@ void check_line(Ctx &c, const std::string &line, int writer_tid) {
     bool ts_ok = false;
     std::string want_tail = std::string("] [") + c.tid_repr[thr] + "] [" + (call.subject_name ? call.subject_name : c.subject_name) + "] - ";
     std::string want_head = std::string("[") + kLevel[call.level] + "] [";
-    if (prefix.size() != want_head.size() + 20 + want_tail.size() || prefix.compare(0, want_head.size(), want_head) != 0 ||
-        prefix.compare(want_head.size() + 20, std::string::npos, want_tail) != 0)
+    size_t tslen = iso8601(call.real_invoke).size();
+    if (prefix.size() != want_head.size() + tslen + want_tail.size() || prefix.compare(0, want_head.size(), want_head) != 0 ||
+        prefix.compare(want_head.size() + tslen, std::string::npos, want_tail) != 0)
         sim::violation("c14:prefix", "call M%d.%d: prefix \"%s\" is not \"%s<timestamp>%s\"", thr, k, prefix.c_str(), want_head.c_str(), want_tail.c_str());
-    std::string ts = prefix.substr(want_head.size(), 20);
+    std::string ts = prefix.substr(want_head.size(), tslen);
     for (uint64_t v : call.real_reads) if (iso8601(v) == ts) ts_ok = true;
     if (call.real_reads.empty()) {
         // no REALTIME read was observed inside the call: accept any time within a wide window around the call
         uint64_t lo = call.real_invoke, hi = call.returned ? call.real_return : sim::now_real();
         struct tm tmv;
         memset(&tmv, 0, sizeof tmv);
-        if (strptime(ts.c_str(), "%Y-%m-%dT%H:%M:%SZ", &tmv)) {
+        if (strptime(ts.c_str(), kDateFmt[g_date_format], &tmv)) {
             uint64_t t = (uint64_t)timegm(&tmv) * 1000000000ull;
             uint64_t slack = 2 * 3600000000000ull + 1000000000ull;
             ts_ok = t + slack >= (lo < hi ? lo : hi) && t <= (lo < hi ? hi : lo) + slack;
@@ -314,7 +317,7 @@ void do_format_direct(Ctx &c, int thr, const sim::Op &op) {
     struct aws_logging_standard_formatting_data fd;
     memset(&fd, 0, sizeof fd);
     fd.log_line_buffer = buf; fd.total_length = total; fd.level = (enum aws_log_level)level; fd.subject_name = c.subject_name;
-    fd.format = "D%d|%s"; fd.date_format = AWS_DATE_FORMAT_ISO_8601; fd.allocator = c.alloc;
+    fd.format = "D%d|%s"; fd.date_format = (enum aws_date_format)g_date_format; fd.allocator = c.alloc;
     uint64_t r0 = sim::now_real();
     Call tmp; tmp.thr = thr; tmp.k = -1; tmp.level = level;
     c.current[sim::self()] = &tmp;
@@ -415,12 +418,14 @@ RunInfo run(const sim::Plan &plan) {
     if (nloggers < 1) nloggers = 1;
     if (nloggers > 4) nloggers = 4;
 
+    g_date_format = 1; // the standard and no-alloc loggers always use ISO 8601
     sim::begin(plan);
     sim::set_observer(observer, &c);
     int cf = (int)plan.get("create_fail", 0);
     bool init_failed = false;
     if (c.mode == MODE_EXT_BG || c.mode == MODE_EXT_FG) {
-        struct aws_log_formatter_standard_options fo = {AWS_DATE_FORMAT_ISO_8601};
+        g_date_format = (int)plan.get("date_format", 1) % 3;
+        struct aws_log_formatter_standard_options fo = {(enum aws_date_format)g_date_format};
         aws_log_formatter_init_default(&c.formatter, c.alloc, &fo);
         c.writer.vtable = &g_rec_vtable;
         c.writer.allocator = c.alloc;
@@ -537,6 +542,7 @@ void gen(uint64_t seed, int tier, sim::Plan &p) {
     int nl = (int)r.range(1, 4);
     p.cfg["nloggers"] = nl;
     p.cfg["init_level"] = r.pick(std::vector<int64_t>{6, 6, 6, 4, 3, 1, 0});
+    if (mode <= 2) p.cfg["date_format"] = r.pick(std::vector<int64_t>{1, 1, 0, 2}); // formatter option: ISO 8601, RFC 822, ISO 8601 basic
     p.cfg["alloc_realloc"] = r.chance(0.8);
     p.cfg["alloc_calloc"] = r.chance(0.8);
     p.cfg["alloc_yield"] = r.chance(0.4);
